@@ -111,8 +111,9 @@ class Adjustable:
 
         self.lower_bound = self.lower_bound if self.lower_bound is not None else -np.inf
         self.upper_bound = self.upper_bound if self.upper_bound is not None else np.inf
-        xmin = self.lower_bound if self.limit_type == "abs" else x0 * self.lower_bound
-        xmax = self.upper_bound if self.limit_type == "abs" else x0 * self.upper_bound
+        # An infinite relative bound is unbounded whatever the reference value is (nb. 0*inf would be NaN)
+        xmin = self.lower_bound if (self.limit_type == "abs" or np.isinf(self.lower_bound)) else x0 * self.lower_bound
+        xmax = self.upper_bound if (self.limit_type == "abs" or np.isinf(self.upper_bound)) else x0 * self.upper_bound
         return xmin, xmax
 
 
